@@ -47,8 +47,8 @@ Definition args_ok (C : Circuit) (o : op) : Prop :=
 Fixpoint hist_args_ok (C : Circuit) (ops : list op) : Prop :=
   match ops with [] => True | o :: l => args_ok C o ∧ hist_args_ok (step C o).1 l end.
 
-(* full strength: every operation, succeeding or raising, preserves the invariant.  NOT proved for add_subcircuit
-   and fill_blackbox; decided for these on every generated history by the oracle (Run_C07.holds). *)
+(* full strength: every operation, succeeding or raising, preserves the invariant.  NOT proved for fill_blackbox;
+   decided for it on every generated history by the oracle (Run_C07.holds). *)
 Definition C07_invariant_full : Prop := ∀ C o, args_ok C o → Inv C → Inv (step C o).1.
 Definition C07_reachable_full : Prop := ∀ C ops, hist_args_ok C ops → Inv C → Inv (run C ops).
 (* the history statement is the one-step statement iterated *)
@@ -59,16 +59,17 @@ Proof.
 Qed.
 Print Assumptions C07_reachable_from_invariant.
 
-(* proved: add (default flags / uid=True), connect, disconnect, remove, set_output, add_blackbox with ARBITRARY
-   arguments (missing nodes, duplicates, self references, any type, any name), whether the call succeeds or raises *)
-Theorem C07_invariant_partial : ∀ C o, core_op o = true → Inv C → Inv (step C o).1.
-Proof. intros C o. exact (step_inv_core C o C07_tables_ok). Qed.
+(* proved: add (default flags / uid=True), connect, disconnect, remove, set_output, add_blackbox, add_subcircuit with
+   ARBITRARY arguments (missing nodes, duplicates, self references, any type, any name, any connection map), whether
+   the call succeeds or raises; the only hypothesis on a subcircuit argument is that it satisfies the invariant itself *)
+Theorem C07_invariant_partial : ∀ C o, not_fill o = true → sc_inv o → Inv C → Inv (step C o).1.
+Proof. intros C o. exact (step_inv_nofill C o C07_tables_ok). Qed.
 Print Assumptions C07_invariant_partial.
-Theorem C07_reachable_partial : ∀ C ops, Forall (λ o, core_op o = true) ops → Inv C → Inv (run C ops).
-Proof. intros C ops. exact (run_inv_core C ops C07_tables_ok). Qed.
+Theorem C07_reachable_partial : ∀ C ops, Forall (λ o, not_fill o = true ∧ sc_inv o) ops → Inv C → Inv (run C ops).
+Proof. intros C ops. exact (run_inv_nofill C ops C07_tables_ok). Qed.
 Print Assumptions C07_reachable_partial.
-Theorem C07_reachable_from_empty_partial : ∀ name ops, Forall (λ o, core_op o = true) ops → Inv (run (empty_circuit name) ops).
-Proof. intros name ops H. apply (run_inv_core _ ops C07_tables_ok H), empty_inv. Qed.
+Theorem C07_reachable_from_empty_partial : ∀ name ops, Forall (λ o, not_fill o = true ∧ sc_inv o) ops → Inv (run (empty_circuit name) ops).
+Proof. intros name ops H. apply (run_inv_nofill _ ops C07_tables_ok H), empty_inv. Qed.
 Print Assumptions C07_reachable_from_empty_partial.
 
 (* ---------------------------------------------------------------- rejected calls *)
@@ -117,6 +118,8 @@ Proof. exact step_pins_basic. Qed.
 Print Assumptions C07_pins_partial.
 
 (* ---------------------------------------------------------------- non-vacuity *)
+Definition ex_sub : Circuit :=
+  {| c_name := "sc"; c_g := {[ "y" := mk_node Nand true {[ "d" ]} ]} ∪ {[ "d" := mk_node Input false ∅ ]}; c_bbs := ∅ |}.
 Definition ex_ops : list op :=
   [ OAdd "a" Input [] [] false false; OAdd "b" Input [] [] false false; OAdd "g" And ["a"; "b"] [] true false;
     OAdd "q" Buf [] [] true false;
@@ -126,13 +129,17 @@ Definition ex_ops : list op :=
     OAdd "k" And ["nope"] ["g"] false false;              (* rejected after the node and the wire k -> g were made *)
     OConnect ["a"] ["f0.q"];                              (* rejected: blackbox output has no fan-in *)
     OConnect ["f0.q"] ["g"];                              (* rejected: blackbox output drives one buf only *)
-    OSetOutput ["g_0"; "zz"] true; ORemove ["b"; "zz"]; ODisconnect ["a"] ["g"; "g_0"] ].
+    OSetOutput ["g_0"; "zz"] true; ORemove ["b"; "zz"]; ODisconnect ["a"] ["g"; "g_0"];
+    OAddSubcircuit ex_sub "s" [("d", ["a"]); ("y", ["g_0"])] ].
 Example C07_ex_history :
   let C := run (empty_circuit "top") ex_ops in
-  Inv C ∧ pins_ok C {["b"; "zz"]} ∧ dom (c_g C) = {["a"; "g"; "q"; "f0.d"; "f0.clk"; "f0.q"; "g_0"; "k"]} ∧
-  edges (c_g C) = {[("g", "f0.d"); ("f0.q", "q")]} ∧ dom (c_bbs C) = {["f0"]}.
+  Inv C ∧ pins_ok C {["b"; "zz"]} ∧ dom (c_g C) = {["a"; "g"; "q"; "f0.d"; "f0.clk"; "f0.q"; "g_0"; "k"; "s_d"; "s_y"]} ∧
+  edges (c_g C) = {[("g", "f0.d"); ("f0.q", "q"); ("a", "s_d"); ("s_d", "s_y"); ("s_y", "g_0")]} ∧ dom (c_bbs C) = {["f0"]}.
 Proof.
-  split; [apply C07_reachable_from_empty_partial; repeat constructor|].
+  split.
+  { apply C07_reachable_from_empty_partial. unfold ex_ops.
+    repeat (apply Forall_cons; split; [split; [reflexivity|simpl; try exact I]|]); [|done].
+    apply C07_invb_spec. vm_compute. reflexivity. }
   split; [apply C07_pins_okb_spec; vm_compute; reflexivity|].
   repeat split; apply (bool_decide_unpack _); vm_compute; exact I.
 Qed.
@@ -145,7 +152,7 @@ Example C07_ex_violating :
   ¬ Inv {| c_name := "t"; c_g := {[ "n" := mk_node And false {[ "p" ]} ]} ∪ {[ "p" := mk_node BbIn false ∅ ]}; c_bbs := ∅ |}.
 Proof. split; intros H%C07_invb_spec; vm_compute in H; discriminate. Qed.
 (* the hypotheses of the full statements are satisfiable by a real subcircuit *)
-Example C07_ex_sub_ok : sub_ok {| c_name := "sc"; c_g := {[ "y" := mk_node Nand true {[ "d" ]} ]} ∪ {[ "d" := mk_node Input false ∅ ]}; c_bbs := ∅ |}.
+Example C07_ex_sub_ok : sub_ok ex_sub.
 Proof.
   split; [apply C07_invb_spec; vm_compute; reflexivity|]. split; [apply C07_pins_okb_spec; vm_compute; reflexivity|].
   intros n Hn. assert (n = "y") as ->.
